@@ -95,7 +95,7 @@ def _same_core(a, b, exact):
 def _warm(mesh):
     try:
         mesh.cell, mesh.dV, len(mesh), mesh.cells, mesh.vertices, mesh.region.edges, mesh.region.center, mesh.region.volume
-        mesh.index2point(tuple(0 for _ in mesh.n)), list(mesh.indices)[:1]
+        mesh.index2point(tuple(0 for _ in mesh.n)), list(mesh.indices)[:1], list(mesh)[:1]
     except Exception:  # noqa: BLE001  (reads only; nothing is judged here)
         pass
 
@@ -151,17 +151,22 @@ def arrive_in_place(df, mesh, emb, salt):
                                              tolerance_factor=mesh.region.tolerance_factor),
                             n=tuple(int(v) for v in mesh.n), bc=mesh.bc,
                             subregions={k: df.Region(p1=r.pmin, p2=r.pmax, dims=r.dims, units=r.units) for k, r in mesh.subregions.items()})
-            _warm(other)
+            # (no reads before the first step: a quantity memoised HERE would be right again at the end; the reads happen at the
+            # far end of the there-and-back, so that anything memoised there is stale when the mesh is back)
+            # a mesh keeps the Region object it is built on (public, mutable): without subregions, every second arrival moves
+            # the REGION in place instead of the mesh (seeded change C15-12 cached the cell centres in the mesh and dropped
+            # them only in the in-place methods of the mesh itself)
+            tgt = other.region if (not other.subregions and (salt // 6) % 2 == 0) else other
             if kind == "translate":
                 v = tuple(float(4 * e) for e in edges)
-                other.translate(v, inplace=True)
+                tgt.translate(v, inplace=True)
                 _warm(other)
-                other.translate(tuple(-x for x in v), inplace=True)
+                tgt.translate(tuple(-x for x in v), inplace=True)
             else:
                 ref = tuple(float(x) for x in mesh.region.pmin)
-                other.scale(2.0, reference_point=ref, inplace=True)
+                tgt.scale(2.0, reference_point=ref, inplace=True)
                 _warm(other)
-                other.scale(0.5, reference_point=ref, inplace=True)
+                tgt.scale(0.5, reference_point=ref, inplace=True)
     except Exception:  # noqa: BLE001  a refusal of the in-place route is C13's business, not this check's
         ARRIVALS["fallback"] += 1
         return mesh
